@@ -43,7 +43,7 @@ Definition valid_input_size (min max : Z) (v : val) (has_equal : bool) : bool * 
   | VStr s =>
     let n := Z.of_nat (rune_count s) in
     if has_equal then (n <? min, max <? n, s) else (n <=? min, max <=? n, s)
-  | VFloat _ f repr =>
+  | VFloat _ f _ repr =>
     if has_equal then (c_lt (fl_cmp_z f min), c_gt (fl_cmp_z f max), repr)
     else (c_le (fl_cmp_z f min), c_ge (fl_cmp_z f max), repr)
   | VInt _ z =>
@@ -78,23 +78,21 @@ Definition body_of (cus : str) (rule : str) : vbody :=
 
 (* validfn.go:26-52 To and 94-120 OTo: the two clauses of the fall-through are both written when
    no custom message is present (min > max) *)
-Definition to_like (has_equal : bool) (vn obj field : str) (v : val) : list clause :=
+Definition to_like (has_equal : bool) (vn obj field : str) : val -> list clause :=
   let cus := pk_msg vn in
   match parse_tag_to (pk_val vn) (s2b "to") with
-  | inr e => [CField obj field e]
-  | inl (mn, mx) =>
+  | inr e => fun _ => [CField obj field e]
+  | inl (mn, mx) => fun v =>
     let '(lt, gt, vs) := valid_input_size mn mx v has_equal in
-    let c := CValid obj field vs (body_of cus (if has_equal then s2b "to" else s2b "oto")) in
-    match cus with
-    | [] => (if lt then [c] else []) ++ (if gt then [c] else [])
-    | _ => if lt || gt then [c] else []
-    end
+    (* after the repair: the violated rule is reported once *)
+    if lt || gt then [CValid obj field vs (body_of cus (if has_equal then s2b "to" else s2b "oto"))] else []
   end.
 
 (* Ge / Gt: validInputSize(min, 0, tv[, false]) and only isLessThan; Le / Lt: (0, max) and isMoreThan *)
-Definition one_sided (lower has_equal : bool) (rule : str) (vn obj field : str) (v : val) : list clause :=
+Definition one_sided (lower has_equal : bool) (rule : str) (vn obj field : str) : val -> list clause :=
   let cus := pk_msg vn in
   let b := fst (atoi (pk_val vn)) in
+  fun v =>
   let '(lt, gt, vs) := if lower then valid_input_size b 0 v has_equal else valid_input_size 0 b v has_equal in
   if (if lower then lt else gt) then [CValid obj field vs (body_of cus rule)] else [].
 
@@ -104,13 +102,14 @@ Definition eq_holds (n : Z) (v : val) : bool :=
   | VStr s => Z.of_nat (rune_count s) =? n
   | VInt _ z => z =? n
   | VUint _ u => (0 <=? n) && (u =? n)
-  | VFloat _ f _ => c_eq (fl_cmp_z f n)
+  | VFloat _ f _ _ => c_eq (fl_cmp_z f n)
   | VSlice _ _ _ vs => Z.of_nat (length vs) =? n
   | _ => false
   end.
-Definition eq_like (want_eq : bool) (vn obj field : str) (v : val) : list clause :=
+Definition eq_like (want_eq : bool) (vn obj field : str) : val -> list clause :=
   let cus := pk_msg vn in
   let n := fst (atoi (pk_val vn)) in
+  fun v =>
   if Bool.eqb (eq_holds n v) want_eq then []
   else [CValid obj field (to_str v) (body_of cus (if want_eq then s2b "eq" else s2b "noeq"))].
 
@@ -122,3 +121,221 @@ Definition rLe := one_sided false true (s2b "le").
 Definition rLt := one_sided false false (s2b "lt").
 Definition rEq := eq_like true.
 Definition rNoEq := eq_like false.
+
+(* ================= format and content rules, validfn.go:219-812 ================= *)
+
+Definition pats (x : rx) : list pattern := match patterns 8 x with Some ps => ps | None => [] end.
+
+(* CheckFieldIsStr, common.go:105-112: Some clause when the value is not of kind string *)
+Definition check_is_str (obj field : str) (v : val) : option clause :=
+  match v with
+  | VStr _ => None
+  | _ => Some (CValid obj field (value_string v) (VDefault (s2b "notstr")))
+  end.
+
+Definition str_of (v : val) : str := match v with VStr s => s | _ => [] end.
+
+(* the shape shared by phone/email/idcard/ip.../json/...: string check, verdict, custom or default *)
+Definition str_rule (rule : str) (ok : str -> bool) (vn obj field : str) (v : val) : list clause :=
+  match check_is_str obj field v with
+  | Some c => [c]
+  | None => let s := str_of v in
+            if ok s then [] else [CValid obj field s (body_of (pk_msg vn) rule)]
+  end.
+
+Definition rPhone := str_rule (s2b "phone") (match_string (pats PhoneRe)).
+Definition rEmail := str_rule (s2b "email") (match_string (pats EmailRe)).
+Definition rIDCard := str_rule (s2b "idcard") (match_string (pats IdCardRe)).
+
+Section WithOracles.
+Variable orc : oracles.
+
+Definition ip_lookup (s : str) : bool * bool := match lookup1 s (o_ip orc) with Some p => p | None => (false, false) end.
+Definition rIp := str_rule (s2b "ip") (fun s => fst (ip_lookup s)).
+Definition rIpv4 := str_rule (s2b "ipv4") (fun s => fst (ip_lookup s) && snd (ip_lookup s)).
+Definition rIpv6 := str_rule (s2b "ipv6") (fun s => fst (ip_lookup s) && negb (snd (ip_lookup s))).
+
+(* init.go GetTimeFmt: mask bits year=1 month=2 day=4 hour=8 min=16 sec=32 *)
+Definition join_fn (old split j : str) : str :=
+  match old, j with [], _ => j | _, [] => old | _, _ => old ++ split ++ j end.
+Definition get_time_fmt (mask : Z) (splits : list str) : str :=
+  let d0 := s2b "-" in let d1 := s2b " " in let d2 := s2b ":" in
+  let '(sd, sdt, st) := match splits with
+                        | [a] => (a, d1, d2)
+                        | [a; b] => (a, b, d2)
+                        | [a; b; c] => (a, b, c)
+                        | _ => (d0, d1, d2)
+                        end in
+  let bit n := Z.testbit mask n in
+  let p0 := if bit 0 then join_fn [] sd (s2b "2006") else [] in
+  let p1 := if bit 1 then join_fn p0 sd (s2b "01") else p0 in
+  let p2 := if bit 2 then join_fn p1 sd (s2b "02") else p1 in
+  let s0 := if bit 3 then join_fn [] st (s2b "15") else [] in
+  let s1 := if bit 4 then join_fn s0 st (s2b "04") else s0 in
+  let s2 := if bit 5 then join_fn s1 st (s2b "05") else s1 in
+  join_fn p2 sdt s2.
+
+Definition time_ok (layout s : str) : bool := match lookup2 layout s (o_time orc) with Some b => b | None => false end.
+
+Definition rYear := str_rule (s2b "year") (time_ok (get_time_fmt 1 [])).
+Definition date_split (vn : str) : str :=
+  match pk_val vn with [] => s2b "-" | x => trim [QUOTE] x end.
+Definition rYear2Month (vn : str) := str_rule (s2b "year2month") (time_ok (get_time_fmt 3 [date_split vn])) vn.
+Definition rDate (vn : str) := str_rule (s2b "date") (time_ok (get_time_fmt 7 [date_split vn])) vn.
+(* Datetime: up to three separators from the comma list; extra ones are ignored (after the repair) *)
+Definition datetime_splits (vn : str) : list str :=
+  let d := [s2b "-"; s2b " "; s2b ":"] in
+  match pk_val vn with
+  | [] => d
+  | x => let ps := split1 COMMA [] (trim [QUOTE] x) in
+         [nth 0 ps (nth 0 d []); nth 1 ps (nth 1 d []); nth 2 ps (nth 2 d [])]
+  end.
+Definition rDatetime (vn : str) := str_rule (s2b "datetime") (time_ok (get_time_fmt 63 (datetime_splits vn))) vn.
+
+(* Re, validfn.go:495-545: the pattern is what follows the first quote of the whole rule text, up
+   to the first quote not preceded by a backslash; the message is parsed from the rest *)
+Definition BACKSLASH : byte := 92%N.
+Fixpoint re_scan (s : str) (acc : str) : option (str * str) :=   (* Some (pattern, rest after the closing quote) *)
+  match s with
+  | [] => None
+  | v :: r => match r with
+              | [] => None                                   (* next > l-1 *)
+              | nx :: r' => if negb (N.eqb v BACKSLASH) && N.eqb nx QUOTE
+                            then Some (rev (v :: acc), r')
+                            else re_scan r (v :: acc)
+              end
+  end.
+Definition re_ok (pattern s : str) : bool := match lookup2 pattern s (o_re orc) with Some b => b | None => false end.
+Definition rRe (vn obj field : str) (v : val) : list clause :=
+  match check_is_str obj field v with
+  | Some c => [c]
+  | None =>
+    match index_byte QUOTE vn with
+    | None => [CField obj field (FRuleErr (s2b "re"))]
+    | Some si =>
+      match re_scan (skipn (si + 1) vn) [] with
+      | None => [CField obj field (FRuleErr (s2b "re"))]
+      | Some (pattern, rest) =>
+        let new_vn := firstn si vn ++ QUOTE :: rest in
+        if re_ok pattern (str_of v) then []
+        else [CValid obj field (str_of v) (body_of (pk_msg new_vn) (s2b "re"))]
+      end
+    end
+  end.
+
+(* in / include, validfn.go:234-284 *)
+Definition SLASH : byte := 47%N.
+Definition in_like (vn obj field : str) (v : val) : list clause :=
+  let key := pk_key vn in let vl := pk_val vn in let cus := pk_msg vn in
+  let is_include := str_eqb key (s2b "include") in
+  let err := CField obj field (FRuleErr (if is_include then s2b "include" else s2b "in")) in
+  match index_byte LPAREN vl, last_index_byte RPAREN vl with
+  | Some lb, Some rb =>
+    if Nat.ltb rb lb then [err] else
+    let in_vals := firstn (rb - (lb + 1)) (skipn (lb + 1) vl) in
+    let go (tv : str) :=
+      let opts := map (trim [QUOTE]) (names_split SLASH in_vals) in
+      let hit := existsb (fun o => if is_include then contains tv o else str_eqb tv o) opts in
+      if hit then [] else [CValid obj field tv (body_of cus key)] in
+    match v with
+    | VStr s => go s
+    | _ => if is_include then [err] else go (to_str v)
+    end
+  | _, _ => [err]
+  end.
+
+(* Int / Float *)
+Definition rInt (vn obj field : str) (v : val) : list clause :=
+  match v with
+  | VStr s => if match_string (pats IntRe) s then [] else [CValid obj field s (body_of (pk_msg vn) (s2b "int"))]
+  | _ => if is_num_kind (kind v) false then [] else [CValid obj field (to_str v) (body_of (pk_msg vn) (s2b "int"))]
+  end.
+Definition rFloat (vn obj field : str) (v : val) : list clause :=
+  match v with
+  | VStr s => if match_string (pats FloatRe) s then [] else [CValid obj field s (body_of (pk_msg vn) (s2b "float"))]
+  | VFloat _ _ _ _ => []
+  | _ => [CValid obj field (to_str v) (body_of (pk_msg vn) (s2b "float"))]
+  end.
+
+(* Ints, validfn.go:572-630 (after the repair: protecting quotes are stripped) *)
+Definition elems_of (v : val) : list val := match v with VSlice _ _ _ vs | VArray _ _ vs => vs | _ => [] end.
+Definition rInts (vn obj field : str) (v : val) : list clause :=
+  let cus := pk_msg vn in
+  let sp := match trim [QUOTE] (pk_val vn) with [] => [COMMA] | x => x end in
+  match v with
+  | VStr s =>
+    if forallb (match_string (pats IntRe)) (split s sp) then [] else [CValid obj field s (body_of cus (s2b "ints"))]
+  | VSlice _ _ _ _ | VArray _ _ _ =>
+    let strs := map (fun e => to_str (unwrap_iface e)) (elems_of v) in
+    if forallb (match_string (pats IntRe)) strs then []
+    else [CValid obj field (s2b "[" ++ join (s2b ", ") strs ++ s2b "]") (body_of cus (s2b "ints"))]
+  | _ => if is_num_kind (kind v) false then [] else [CField obj field (FRuleErr (s2b "ints"))]
+  end.
+
+(* Unique, validfn.go:656-702 *)
+Fixpoint distinct (l : list str) : list str :=
+  match l with
+  | [] => []
+  | x :: r => if existsb (str_eqb x) r then distinct r else x :: distinct r
+  end.
+Definition rUnique (vn obj field : str) (v : val) : list clause :=
+  match v with
+  | VStr s =>
+    let ps := split1 COMMA [] s in
+    if Nat.eqb (length ps) (length (distinct ps)) then [] else [CValid obj field s (body_of (pk_msg vn) (s2b "unique"))]
+  | VSlice _ _ _ _ | VArray _ _ _ =>
+    let strs := map (fun e => to_str (unwrap_iface e)) (elems_of v) in
+    if Nat.eqb (length strs) (length (distinct strs)) then []
+    else [CValid obj field (s2b "[" ++ join [COMMA] strs ++ s2b "]") (body_of (pk_msg vn) (s2b "unique"))]
+  | _ => [CField obj field (FRuleErr (s2b "unique"))]
+  end.
+
+(* StrEscape, common.go:396-442 *)
+Definition esc1 (c : byte) : str :=
+  (if N.eqb c 39 then [92; 39] else if N.eqb c 34 then [92; 34] else if N.eqb c 0 then [92; 48]
+   else if N.eqb c 10 then [92; 110] else if N.eqb c 13 then [92; 114] else if N.eqb c 9 then [92; 116]
+   else if N.eqb c 26 then [92; 90] else if N.eqb c 92 then [92; 92] else [c])%N.
+Definition str_escape (s : str) : str := flat_map esc1 s.
+
+Definition json_ok (s : str) : bool := match lookup1 s (o_json orc) with Some b => b | None => false end.
+Definition rJson (vn obj field : str) (v : val) : list clause :=
+  match check_is_str obj field v with
+  | Some c => [c]
+  | None => let s := str_of v in
+            if json_ok s then []
+            else let shown := if Nat.ltb 256 (length s) then s2b "more than 256 byte(it is ignore)" else s in
+                 [CValid obj field (str_escape shown) (body_of (pk_msg vn) (s2b "json"))]
+  end.
+
+Definition rPrefix (vn : str) := str_rule (s2b "prefix") (fun s => has_prefix s (trim [QUOTE] (pk_val vn))) vn.
+Definition rSuffix (vn : str) := str_rule (s2b "suffix") (fun s => has_suffix s (trim [QUOTE] (pk_val vn))) vn.
+
+(* File / Dir: os.Stat through the oracle: Some (Some isDir) | Some None = error (text not modelled) *)
+Definition stat_lookup (p : str) : option (bool * str) := match lookup1 p (o_stat orc) with Some x => x | None => None end.
+Definition file_like (want_dir : bool) (vn obj field : str) (v : val) : list clause :=
+  match check_is_str obj field v with
+  | Some c => [c]
+  | None => let s := str_of v in
+            match stat_lookup s with
+            | None => [CValid obj field s (VDefault (s2b "stat"))]
+            | Some (is_dir, _) =>
+              if Bool.eqb is_dir want_dir then []
+              else [CValid obj field s (body_of (pk_msg vn) (if want_dir then s2b "dir" else s2b "file"))]
+            end
+  end.
+Definition rFile := file_like false.
+Definition rDir := file_like true.
+
+(* dispatch on the name of the Go function the source's rule table gives *)
+Definition rulefn := str -> str -> str -> val -> list clause.
+Definition fn_table : list (str * rulefn) :=
+  [ (s2b "To", rTo); (s2b "Ge", rGe); (s2b "Le", rLe); (s2b "OTo", rOTo); (s2b "Gt", rGt); (s2b "Lt", rLt);
+    (s2b "Eq", rEq); (s2b "NoEq", rNoEq); (s2b "In", in_like); (s2b "Include", in_like);
+    (s2b "Phone", rPhone); (s2b "Email", rEmail); (s2b "IDCard", rIDCard);
+    (s2b "Year", rYear); (s2b "Year2Month", rYear2Month); (s2b "Date", rDate); (s2b "Datetime", rDatetime);
+    (s2b "Int", rInt); (s2b "Ints", rInts); (s2b "Float", rFloat); (s2b "Re", rRe);
+    (s2b "Ip", rIp); (s2b "Ipv4", rIpv4); (s2b "Ipv6", rIpv6); (s2b "Unique", rUnique); (s2b "Json", rJson);
+    (s2b "Prefix", rPrefix); (s2b "Suffix", rSuffix); (s2b "File", rFile); (s2b "Dir", rDir) ].
+Definition fn_by_name (n : str) : option rulefn := lookup1 n fn_table.
+
+End WithOracles.
